@@ -358,13 +358,15 @@ def gitEngine : List String → String
     let parsed := if es = "-" then some [] else (es.splitOn ";").mapM (fun t => match t.splitOn ":" with
       | [n, m, b] => do
         let mode := match m with
-          | "d" => GitMode.dir | "f" => .regular | "x" => .executable | "L" => .symlink | "s" => .submodule | _ => .other
+          | "d" => GitMode.dir | "f" => .regular | "x" => .executable | "L" => .symlink | "s" => .submodule
+          | "g" => .deprecated | _ => .other
         pure (⟨← fromHex n, mode, ← fromHex b⟩ : GitEntry)
       | _ => none)
     match parseUnpackFilter f, mu.toNat?, mg.toNat?, parsed with
     | some ff, some mu, some mg, some es => match gitUnpackMetas es with
-      | none => "panic"
-      | some ms =>
+      | .panic => "panic"
+      | .corrupt => "err rio-ware-corrupt"
+      | .ok ms =>
         -- filters are applied to every entry (errors ignored by the code: git has no devices / setid bits)
         -- and the final re-paving sets every directory's mtime to the default time, whatever the mtime filter says
         let ms' := ms.map (fun m => match applyUnpackFilter mu mg ff m with
